@@ -27,7 +27,7 @@ COMPONENTS = {
 }
 ASSUMPTIONS = ['declared budgets: local 5 tries; s3c 4 tries, 403 not retried; b2 4 tries for transport errors and 429, 1 + MAX_REAUTH_ATTEMPTS attempts for other statuses',
                'stray temporary files after a failed local upload are recorded as a probe, not judged']
-PROBES = ['masked', 'persistent_raised', 'gray_zone', 'rewound_partial_stream', 'lost_response', 'mid_upload', 'mid_download', 'b2_reauth', 'retry_after_honoured']
+PROBES = ['concurrent_expiry', 'masked', 'persistent_raised', 'gray_zone', 'rewound_partial_stream', 'lost_response', 'mid_upload', 'mid_download', 'b2_reauth', 'retry_after_honoured']
 TIERS = {'quick': {'budget_s': 60, 'batch': 4}, 'thorough': {'budget_s': 900, 'batch': 8}}
 
 OPS = ['exists', 'upload', 'upload_stream', 'download', 'download_stream', 'list_files', 'delete']
@@ -36,6 +36,14 @@ TRANSFER_OPS = ('upload', 'upload_stream', 'download', 'download_stream')
 
 def gen_case(seed, tier):
     rng = substream(seed, 'c12')
+    if rng.random() < 0.2:
+        # several concurrent calls on one B2 adapter while the authorisation expires once
+        k = rng.choice([2, 3, 4])
+        return {'seed': seed, 'sched_seed': seed, 'kind': 'concurrent', 'adapter': 'b2', 'op': 'mixed',
+                'calls': [{'op': rng.choice(['upload_stream', 'upload_stream', 'upload', 'download', 'exists', 'list_files']),
+                           'size': rng.choice([0, 5, 40, 200]), 'chunk': rng.choice([3, 16, 64])} for _ in range(k)],
+                'expire_after': rng.randrange(1, 12), 'authorize_latency': rng.choice([0.0, 0.05, 0.3, 2.0]), 'lat': rng.choice([0.0, 0.01, 0.1]),
+                'opts': world.SchedOpts.swarm(rng).as_dict(), 'size': 0, 'chunk': 1}
     chunk = rng.choice([1, 3, 16, 64])
     k = rng.choice([0, 1, 2, 3, 4])
     size = max(0, k * chunk + rng.choice([-1, 0, 0, 1]))
@@ -371,7 +379,87 @@ def plans_for(case, base):
     return plans
 
 
+def run_concurrent(case):
+    """k concurrent adapter calls, tokens expire once mid-flight: a single expiry is within every budget, so
+    every call must succeed with exact bytes, after a bounded number of requests."""
+    import asyncio
+    install.install_once()
+    env = install.Env(case['sched_seed'])
+    prng = substream(case['sched_seed'], 'payload')
+    viol, probes = [], {}
+    out = {}
+
+    async def main(res):
+        svc = fakes.FakeB2(bucket_name='bkt', bucket_id='bid', key_id='kid', application_key='akey', restricted=False,
+                           latency=case['lat'], request_budget=400)
+        svc.expire_after = case['expire_after']
+        svc.authorize_latency = case['authorize_latency']
+        backend = fakes.make_b2(svc)
+        plans = []
+        for i, c in enumerate(case['calls']):
+            name = f'data/{i:02d}/obj-{i}'
+            data = prng.randbytes(c['size'])
+            if c['op'] in ('download', 'exists'):
+                svc.versions[name] = [('upload', data)]
+            plans.append((c, name, data))
+        svc.versions['data/zz/keep'] = [('upload', b'keep')]
+
+        async def one(c, name, data):
+            sub = dict(case, op=c['op'], chunk=c['chunk'], rate_limited=False)
+            import inspect
+            f = getattr(backend, c['op'])
+            if c['op'] == 'upload':
+                return await f(name, data)
+            if c['op'] == 'upload_stream':
+                raw, st = _chain_reader(data, False)
+                return await f(name, st, len(data), c['chunk'])
+            if c['op'] == 'download':
+                return bytes(await f(name))
+            if c['op'] == 'exists':
+                return await f(name)
+            return sorted([x async for x in f('data/zz/')])
+        rs = await asyncio.gather(*(one(*p) for p in plans), return_exceptions=True)
+        out['rs'] = rs
+        out['plans'] = plans
+        out['objects'] = dict(svc.objects)
+        out['auth'] = svc.auth_count
+        out['requests'] = len(svc.requests)
+        out['expired'] = svc.counters.get('tokens-expired', 0)
+        await backend.close()
+    r = world.run_process(env, main, world.SchedOpts.from_dict(case['opts']))
+    sig = {'adapter': 'b2', 'op': 'concurrent'}
+    if r.hang is not None or (r.exc is not None and not isinstance(r.exc, fakes.BudgetExceeded)) or 'rs' not in out:
+        if isinstance(r.exc, BaseException) and 'rs' not in out and r.hang is None:
+            viol.append({'cls': 'unbounded-retries' if isinstance(r.exc, fakes.BudgetExceeded) else 'hang', 'sig': sig, 'msg': f'concurrent calls: {r.exc!r}'})
+        else:
+            viol.append({'cls': 'hang', 'sig': sig, 'msg': f'concurrent calls did not finish: {r.hang or r.exc!r}'})
+    else:
+        for (c, name, data), x in zip(out['plans'], out['rs']):
+            if isinstance(x, BaseException):
+                viol.append({'cls': 'transient-fault-not-masked', 'sig': sig,
+                             'msg': f'{len(out["plans"])} concurrent B2 calls, tokens expired once after {case["expire_after"]} requests (authorize takes '
+                                    f'{case["authorize_latency"]}s): {c["op"]}({name}) raised {x!r}; {out["auth"]} authorisations, {out["requests"]} requests'})
+                break
+            if c['op'] in ('upload', 'upload_stream') and out['objects'].get(name) != data:
+                viol.append({'cls': 'object-corrupted', 'sig': sig, 'msg': f'concurrent {c["op"]}({name}) returned but the stored object differs from the payload'})
+                break
+            if c['op'] == 'download' and x != data:
+                viol.append({'cls': 'wrong-result', 'sig': sig, 'msg': f'concurrent download({name}) returned other bytes'})
+                break
+            if c['op'] == 'exists' and x is not True:
+                viol.append({'cls': 'wrong-result', 'sig': sig, 'msg': f'concurrent exists({name}) = {x}'})
+                break
+        if out.get('expired'):
+            probes['concurrent_expiry'] = 1
+        if not viol and out['requests'] > 40 * len(out['plans']):
+            viol.append({'cls': 'unbounded-retries', 'sig': sig, 'msg': f'{out["requests"]} requests for {len(out["plans"])} calls and one token expiry'})
+    return {'violations': viol, 'digest': r.digest, 'nontrivial': True, 'probes': probes, 'evaluations': 1, 'sim_s': r.stats['sim_s'], 'steps': r.stats['steps'],
+            'sample': {'kind': 'concurrent', 'calls': [c['op'] for c in case['calls']], 'expire_after': case['expire_after'], 'auth': out.get('auth')}}
+
+
 def run_case(case):
+    if case.get('kind') == 'concurrent':
+        return run_concurrent(case)
     viol, probes = [], {}
     digests = set()
     evaluations = 0
@@ -418,6 +506,13 @@ def _plan_str(plan):
 
 
 def shrink(case):
+    if case.get('kind') == 'concurrent':
+        for i in range(len(case['calls'])):
+            if len(case['calls']) > 2:
+                c = copy.deepcopy(case)
+                del c['calls'][i]
+                yield c
+        return
     for k, v in (('others', 0), ('rate_limited', False), ('preexisting', False), ('page', 1000)):
         if case[k] != v:
             c = copy.deepcopy(case)
